@@ -218,7 +218,13 @@ pub fn run(a: &Args) -> i32 {
         scenarios.push((e.to_string(), "connect_panic".into(), "during_connect".into(), 1));
         scenarios.push((e.to_string(), "bad_handshake".into(), "handshake".into(), 1));
         if matches!(*e, "listener_shutdown" | "drain" | "serve_connection_cancel") {
-            for p in ["idle", "off_parked", "outbound_stuck", "inline_ctx_parked"] { scenarios.push((e.to_string(), "cancel".into(), p.into(), 1)); }
+            for p in ["idle", "off_parked", "outbound_stuck", "inline_ctx_parked"] {
+                // serve_listener_with_shutdown only stops accepting: connections it has accepted are detached, nothing cancels
+                // them (documented).  The two phases that need the embedder's cancellation to REACH the connection apply to
+                // the draining loop and to serve_connection_with_cancel only.
+                if *e == "listener_shutdown" && matches!(p, "outbound_stuck" | "inline_ctx_parked") { continue; }
+                scenarios.push((e.to_string(), "cancel".into(), p.into(), 1));
+            }
         }
         if *e == "drain" { scenarios.push((e.to_string(), "drain_abort".into(), "off_parked".into(), 1)); }
     }
